@@ -53,6 +53,29 @@ func Scenarios2() []History {
 	)
 	add("refund-while-requests-pending", long, nil, ops...)
 
+	// the minimum a slashed binding is measured against is the one of its current price: not of the fee the
+	// failed request was charged (discounted, re-priced since, or none in super mode)
+	ops = []Ev{
+		{Name: "Define", Signer: "o1", Svc: "s1"},
+		{Name: "Bind", Signer: "o1", Svc: "s1", Prov: "p1", Deposit: 21, DShape: "ok", Qos: 1,
+			Pr: MPricing{Price: 10, PT: []PromoT{}, PV: []PromoV{{V: 1, D: 50}}}},
+		{Name: "Bind", Signer: "o1", Svc: "s1", Prov: "p2", Deposit: 12, DShape: "ok", Qos: 1, Pr: pr(6)},
+		{Name: "Bind", Signer: "o2", Svc: "s1", Prov: "p3", Deposit: 21, DShape: "ok", Qos: 1, Pr: pr(10)},
+		{Name: "Call", Signer: "c1", Svc: "s1", Provs: []string{"p1"}, Cap: 10, Timeout: 1},
+		eb(1),
+		{Name: "Respond", Signer: "p1", Rid: rid(1, 1, 1, 0), Kind: "valid"},
+		{Name: "Call", Signer: "c1", Svc: "s1", Provs: []string{"p1", "p2"}, Cap: 10, Timeout: 2}, // p1 at half price
+		{Name: "Call", Signer: "c2", Svc: "s1", Provs: []string{"p3"}, Cap: 10, Timeout: 2, Super: true},
+		eb(1),
+		{Name: "UpdateBinding", Signer: "o1", Svc: "s1", Prov: "p2", HasPr: true, Pr: pr(3)}, // cheaper while its request is pending
+		{Name: "Respond", Signer: "p3", Rid: rid(3, 1, 2, 0), Kind: "bad"},                   // 21 -> 19 < 20: disabled
+		eb(1),
+		eb(1), // p1: 21 -> 19 < 20 disabled; p2: 12 -> 11 >= 10 stays
+		{Name: "Obs"},
+		eb(1),
+	}
+	add("slash-threshold-is-of-the-current-price", smallParams(), nil, ops...)
+
 	return hs
 }
 
